@@ -465,3 +465,17 @@ Lemma pointer_identity_misses_duplicate :
   exists cs : list ((nat * nat) * nat),
     snd (ts_cases ident_struct (fun l => l) cs) <> [] /\ snd (ts_cases ident_ptr (fun l => l) cs) = [].
 Proof. exists [((7, 1), 10); ((7, 2), 20)]%nat. split; vm_compute; [discriminate|reflexivity]. Qed.
+
+(* expression switch over an interface value: (value, type) pairs; the complete detection keeps EVERY
+   distinct (value, type) seen (ts_cases with ident = same value and same type); remembering only the first
+   type per value misses a duplicate of a later type (seeded/C06b) *)
+Definition ident_vt (a b : nat * nat) : bool := Nat.eqb (fst a) (fst b) && Nat.eqb (snd a) (snd b).
+Definition sw_item_first_only (st : list (nat * nat) * nat) (c : nat * nat) : list (nat * nat) * nat :=
+  match find (fun s => Nat.eqb (fst s) (fst c)) (fst st) with
+  | None => (fst st ++ [c], snd st)
+  | Some s => if Nat.eqb (snd s) (snd c) then (fst st, S (snd st)) else st
+  end.
+Lemma switch_first_only_misses :
+  exists cs : list ((nat * nat) * nat),
+    snd (ts_cases ident_vt (fun l => l) cs) <> [] /\ snd (fold_left sw_item_first_only (map fst cs) ([], 0)) = 0.
+Proof. exists [((100, 1), 10); ((100, 2), 20); ((100, 2), 30)]%nat. split; vm_compute; [discriminate|reflexivity]. Qed.
